@@ -54,6 +54,23 @@ def run(ctx):
                 r = outcome.run_record(exe, c["id"], cfgname, cfgname, flags=flags, timeout=300)
             records[c["id"]]["runs"].append(r)
             ctx.add("evaluations")
+    # frames far larger than a page (baseline code generator only): the check against the stack limit happens after the frame is
+    # allocated, so the trap path itself runs up to one frame below the limit
+    bcases = hostile.bigframe_cases(thorough=not ctx.quick)
+    bsrc = os.path.join(ctx.work, "bigframes.dora")
+    open(bsrc, "w").write(hostile.render(bcases))
+    for c in bcases:
+        records[c["id"]] = {"id": c["id"], "expect": c["expect"], "runs": [], "case": c}
+    for backend, gc in [cfg for cfg in configs(ctx) if cfg[0] == "cannon"][: 1 if ctx.quick else 3]:
+        exe = os.path.join(ctx.work, f"bigframes_{backend}_{gc or 'swiper'}")
+        b, msg = progs.compile_prog(bsrc, exe, backend=backend, gc=gc, timeout=1800)
+        if b is None:
+            raise ToolError(f"big-frame scenarios do not compile ({backend},{gc}): {msg[-2000:]}")
+        for c in bcases:
+            cfgname = f"{backend}/{gc or 'swiper'}"
+            r = outcome.run_record(exe, c["id"], cfgname, cfgname, flags="", timeout=300)
+            records[c["id"]]["runs"].append(r)
+            ctx.add("evaluations")
     recs = list(records.values())
     verdicts, res = outcome.judge(recs, ctx.work, "exhaust")
     ctx.tlc_stats(res, f"Outcome judges {len(recs)} scenarios")
